@@ -10,7 +10,7 @@ EXPLANATION = (
     "sum has one write `sum = sum (+) htlc.amount_msat` with saturating/checked/interval-proved addition, on exactly the paths that store the listener; "
     "(R4) max_fee_msat = held sum (read under the table lock after readiness) saturating-minus amount to deliver; (R5) amount None for fixed-amount "
     "invoices, Some(trampoline.amount_msat) for amountless; (R6) the provider forwards bolt11/amount/maxfee/maxdelay/retry_for verbatim in both "
-    "branches and leaves maxfeepercent/exemptfee/partial_msat unset; (R8) the amount to deliver is the invoice amount / the declared amount per the C10-A arm table; (R7) the counted HTLCs stay held until pay's fate is known (C02-S5/S6). The "
+    "branches and leaves maxfeepercent/exemptfee/partial_msat unset; (R8) the amount to deliver is the invoice amount / the declared amount per the C10-A arm table; (R7) the counted HTLCs stay held until pay's fate is known (C02-S5/S6); (R9) an HTLC whose TrampolineInfo - amount to deliver included - differs from the set's is rejected before it is counted (whole-struct comparison, C07-U3). The "
     "inequality over all multisets follows from R2-R4 and C12, it is not enumerated."
 )
 ASSUMPTIONS = ["C12 (the predicate is exact)", "CLN applies maxfee as an absolute cap when exemptfee/maxfeepercent are unset"]
@@ -30,3 +30,6 @@ def run(F, X, rep):
     R.s6_after_pay(C, rep, "C03-R7")
     import rules_ext as E
     E.a_amount_table(C, rep, "C03-R8")
+    # every HTLC of a set declares the same amount to deliver: an HTLC whose TrampolineInfo (amount included) differs from
+    # the entry's is rejected before it is counted (the whole-struct comparison of C07-U3)
+    H.u3_reject_before_add(C, rep, "C03-R9", which=("conflict",))
